@@ -221,7 +221,7 @@ def check_value(view: SpecView, v: Any, t, grammar=None, path="$", siblings=None
                 bad("list", f"expected a list, got {type(v).__name__} {v!r:.60}")
             return errs
         for i, x in enumerate(v):
-            check_value(view, x, t[1], grammar, f"{path}[{i}]", None, errs, what)
+            check_value(view, x, t[1], grammar, f"{path}[{i}]", siblings, errs, what)  # elements see the owner's earlier fields
         return errs
     if k == "tuple":
         if type(v) is not tuple:
@@ -381,7 +381,7 @@ def language(spec, max_depth: int, cap: int = 50000, root=None):
                         out.append((tm, d))
             return out
         if k == "ann":
-            return _mh_values(t[2], t[1], lambda tt, b: enum(tt, b), budget, siblings)
+            return _mh_values(t[2], t[1], lambda tt, b: enum(tt, b, siblings), budget, siblings)
         raise ValueError(t)
 
     start = root or ["ref", spec["start"]]
